@@ -18,11 +18,23 @@
 #ifndef CAP
 #define CAP 8 /* capacity of the string-copy models and of the reference's title buffer */
 #endif
+/* -DFAIL_AT=k (C18): the k-th string copy made by the resolver fails (concrete k, one fault per run) */
+#ifdef FAIL_AT
+static int n_alloc_calls, alloc_failed;
+#define MAYFAIL() (++n_alloc_calls == FAIL_AT ? (alloc_failed = 1) : 0)
+#else
+#define alloc_failed 0
+#define MAYFAIL() 0
+#endif
 #ifdef __CPROVER__
 static char *v_strndup8(const char *s, size_t n)
 {
-	char *r = malloc(CAP);
+	char *r;
 	size_t i;
+
+	if (MAYFAIL())
+		return NULL;
+	r = malloc(CAP);
 
 	for (i = 0; i < n && i < CAP - 1 && s[i]; i++)
 		r[i] = s[i];
@@ -51,6 +63,12 @@ static void *v_memmove(void *dst, const void *src, size_t n)
 #define memmove v_memmove
 #define nondet_char_or_replay(i) nondet_char()
 #else
+#ifdef FAIL_AT
+static char *f_strndup(const char *s, size_t n) { return MAYFAIL() ? NULL : strndup(s, n); }
+static char *f_strdup(const char *s) { return MAYFAIL() ? NULL : strdup(s); }
+#define strndup f_strndup
+#define strdup f_strdup
+#endif
 static char nondet_char_or_replay(int i)
 {
 	char key[32];
@@ -308,7 +326,10 @@ int main(void)
 
 		ref_walk(0, &rr);
 		o = cfg_getopt(&root, vin_path);
-		if (rr.ok == 1) {
+		if (alloc_failed) {
+			V_ASSERT(o == NULL, "[C18] a look-up whose allocation fails reports not-found (never the option of an earlier step)");
+			V_WITNESS("allocation failed");
+		} else if (rr.ok == 1) {
 			V_ASSERT(o == rr.opt, "[C11] a by-path look-up addresses exactly the option reached by stepwise navigation");
 			V_WITNESS("resolved");
 		} else if (rr.ok == 0) {
@@ -322,7 +343,10 @@ int main(void)
 
 		ref_walk(1, &rr);
 		s = cfg_getsec(&root, vin_path);
-		if (rr.ok == 1) {
+		if (alloc_failed) {
+			V_ASSERT(s == NULL, "[C18] a section look-up whose allocation fails reports not-found (never the section of an earlier step)");
+			V_WITNESS("allocation failed");
+		} else if (rr.ok == 1) {
 			V_ASSERT(s == rr.sec, "[C11] a by-path section look-up addresses exactly the instance reached by stepwise navigation (first instance when unqualified)");
 			V_WITNESS("resolved");
 		} else if (rr.ok == 0) {
@@ -337,7 +361,13 @@ int main(void)
 
 		ref_walk(1, &rr);
 		rc = cfg_rmsec(&root, vin_path);
-		if (rr.ok == 1) {
+		if (alloc_failed) {
+			V_ASSERT(rc != CFG_SUCCESS, "[C18] a removal whose allocation fails reports failure");
+			V_ASSERT(ropts[2].nvalues == n_m && ropts[3].nvalues == n_t && ropts[1].nvalues == n_s && ropts[2].values[0]->section == sec_m[0] && ropts[2].values[1]->section == sec_m[1] &&
+					 ropts[3].values[0]->section == sec_t[0] && ropts[3].values[1]->section == sec_t[1] && ropts[1].values[0]->section == sec_s,
+				 "[C18] a removal whose allocation fails removes nothing");
+			V_WITNESS("allocation failed");
+		} else if (rr.ok == 1) {
 			V_ASSERT(rc == CFG_SUCCESS, "[C11] removing by path succeeds for a path that resolves");
 			V_ASSERT(rr.opt->nvalues + 1 == (rr.opt == &ropts[2] ? n_m : rr.opt == &ropts[3] ? n_t : rr.opt == &ropts[1] ? n_s : rr.opt->nvalues + 1), "[C11] removing by path removes one instance of exactly the addressed section");
 			for (i = 0; i < (int)rr.opt->nvalues; i++)
